@@ -7,6 +7,10 @@ Lane `esc` (property C08): one case per line
   comment <hex utf8> <enc>             Comment::set_text on `<!--x-->`
   attrname <hex utf8> <hex utf8 value> <enc> <doc>   Element::set_attribute on document <doc>
   tagname <hex utf8> <enc> <doc>       Element::set_tag_name on document <doc>
+  attrseq <enc> <hex utf8 name> <hex of the lower-cased name in enc> <hex source attr name|-> <hex v1> <hex v2>
+                                       two set_attribute(name, v) calls on `<a>` / `<a SRC=0>`; the codec is
+                                       `Codec.given` (the encoded name is an input); a line starting with
+                                       `attrseq f22` says: a debug assertion of eq_case_insensitive fails here
 
 `enc` ∈ {utf8, xud}. Observation: `<kind> <result> <hex of the serialised output>`.
 The tokens of the fixed documents are constants here (what lol-html's lexer yields for them is
@@ -80,6 +84,27 @@ def run (line : String) : String :=
         | .error .unencodableCharacter => "err:unencodable"
       s!"attrname {rs} {hexOpt tag'.serialize}"
     | _, _, _, _ => "bad-case"
+  | ["attrseq", _e, h, hl, hs, hv1, hv2] =>
+    match ofHex h, ofHex hl, (if hs == "-" then some [] else ofHex hs), ofHex hv1, ofHex hv2 with
+    | some n, some nl, some src, some v1, some v2 =>
+      if (utf8Decode n).isNone || (utf8Decode v1).isNone || (utf8Decode v2).isNone then "bad-utf8" else
+      let c := Codec.given (asciiLowerBytes n) nl
+      let tag : StartTag :=
+        if hs == "-" then { name := strBytes "a", attributes := [], selfClosing := false, raw := some (strBytes "<a>") }
+        else { name := strBytes "a", attributes := [{ name := src, value := strBytes "0", raw := some (src ++ strBytes "=0") }],
+               selfClosing := false, raw := some (strBytes "<a " ++ src ++ strBytes "=0>") }
+      let shw (r : Except AttributeNameError Unit) : String := match r with
+        | .ok () => "ok"
+        | .error .empty => "err:empty"
+        | .error (.forbiddenCharacter ch) => s!"err:forbidden:{hexOfByte ch}"
+        | .error .unencodableCharacter => "err:unencodable"
+      let f1 := tag.setAttributeDebugAssertFails c n
+      let (t1, r1) := tag.setAttribute c n v1
+      let f2 := t1.setAttributeDebugAssertFails c n
+      let (t2, r2) := t1.setAttribute c n v2
+      let mark := if f1 || f2 then "f22 " else ""
+      s!"attrseq {mark}{shw r1} {shw r2} {hexOpt t2.serialize}"
+    | _, _, _, _, _ => "bad-case"
   | ["tagname", h, e, d] =>
     match ofHex h, codecOf e, tagDoc d with
     | some n, some c, some (el, mid, endTag) =>
